@@ -7,7 +7,24 @@ HERE = os.path.dirname(os.path.dirname(os.path.abspath(__file__)))
 PY = "/venv/bin/python"
 
 # id -> (technique, level text, level note, design ref)
+DS_NOTE = ("Trusts the dictionary model of vlib/model.py (written from the property statement, no verif import) and the "
+           "generator's input preconditions (unique dimension values per file, consistent location metadata and observations across files).")
 CHECKS = {
+    "C01": ("Hypothesis-generated multi-file datasets; differential against a coordinate-keyed dictionary model + metamorphic value replacement + csv counts through the real readers",
+            "Every request/axis/slice/input of ~2400 (quick) generated datasets is compared both ways with the model's valid-case set; "
+            "identical masks/observations for all inputs; changing one input's values leaves the others bit-identical; -agg count columns through text/NetCDF files.",
+            DS_NOTE, "DESIGN.md section 5, C01"),
+    "C02": ("Hypothesis-generated datasets with per-file orderings; cell-by-cell differential against the dictionary model + metamorphic permutation of entries/rows/columns/files",
+            "3D results are checked cell by cell against the value each file stores at those coordinates; re-permuting entries (in memory, text rows and columns, NetCDF) "
+            "and the order of files must leave results unchanged / permute csv columns only.",
+            DS_NOTE, "DESIGN.md section 5, C02"),
+    "C03": ("Hypothesis-generated (dataset, subsetting options) pairs with data-relative option values; differential against the model's intersection-and-subset through the API, --list-* and csv",
+            "Data.times/leadtimes/locations, --list-times/--list-dates/--list-locations, csv row descriptors and the valid cases under -obsrange equal the model; empty selections never yield numbers.",
+            DS_NOTE + " -tod with whole-hour initialisation times only.", "DESIGN.md section 5, C03"),
+    "C04": ("metamorphic insertion of all-missing cases for all 70 metrics (Hypothesis) + re-encoding round trips through text/NetCDF files + enumerated reader cases",
+            "Scores pooled over an inserted slice whose cases are missing in one input are bit-identical with and without it for every metric, the all-missing slice reports NaN, no metric raises; "
+            "all missing encodings read back as NaN exactly at the missing cells and give identical scores.",
+            "Scores are taken from verif.output.Standard._get_x_y (the code path of -type csv) on in-memory inputs for the insert oracle.", "DESIGN.md section 5, C04"),
     "C07": ("exhaustive enumeration of value/threshold order relations + Hypothesis random floats against a plain-comparison oracle",
             "Complete enumeration of the order relations a value can have to 1-3 thresholds for all eight bin types (scalar, array, "
             "apply_threshold, 2x2 cells, event probabilities, partition laws) plus random float cases; decides the property on the "
